@@ -9,7 +9,8 @@ EXTENDS Access, Json
 VARIABLE pc
 mcvars == <<world, tok, ev, pc>>
 
-MC_Sizes == {1, 3, 4, 7}
+MC_Sizes  == {1, 3, 4, 7}
+MC_SizesT == 1..7
 MC_World == {0, 1}
 
 MCInit == Init /\ pc = "idle"
@@ -30,16 +31,16 @@ P_C03 == [][/\ C03_Inert(ev') /\ C03_Succeeds(ev') /\ C03_SafeInert(ev') /\ C03_
 
 \* vacuity guards: every kind of cell exists for every committee size
 HasKinds ==
-  \A n \in MC_Sizes : \A k \in {"inert", "succeed", "safe"} :
+  \A n \in Sizes : \A k \in {"inert", "succeed", "safe"} :
      \E m \in Methods : \E S0 \in SetsFor(m) : Kind(m.safe, ClassOf(m), Norm(S0, ClassOf(m), n), n) = k
 \* every mutating method whose class can be satisfied has an exactly-sufficient cell, and every one an insufficient cell
 EveryMethodDecided ==
-  \A n \in MC_Sizes : \A m \in Methods : ~m.safe =>
+  \A n \in Sizes : \A m \in Methods : ~m.safe =>
      /\ ClassOf(m) \notin {"never"} => \E S0 \in SetsFor(m) : Exact(ClassOf(m), Norm(S0, ClassOf(m), n), n)
      /\ ClassOf(m) \notin {"none"}  => \E S0 \in SetsFor(m) : ~Sufficient(ClassOf(m), Norm(S0, ClassOf(m), n))
 \* the committee account satisfies an Alphabet-only class exactly when the two accounts coincide
 ThresholdConfusion ==
-  \A n \in MC_Sizes : Sufficient("alphabet", Norm({"CMT"}, "alphabet", n)) <=> n \in {1, 2, 4}
+  \A n \in Sizes : Sufficient("alphabet", Norm({"CMT"}, "alphabet", n)) <=> n \in {1, 2, 4}
 \* table keys are unique
 UniqueKeys == \A x, y \in Methods : (x.c = y.c /\ x.m = y.m /\ x.a = y.a /\ x.v = y.v) => x = y
 ASSUME HasKinds /\ EveryMethodDecided /\ ThresholdConfusion /\ UniqueKeys
